@@ -183,5 +183,6 @@ func (c RawConfiguration) handleCorrectableCall(ctx context.Context, corr *Corre
 			vEmit("CallEnd", 0, state.md.MessageID, "out", "incomplete", "nerr", len(errs), "nrep", len(replies), "level", clevel)
 			return
 		}
+		vEmit("CallLoop", 0, state.md.MessageID)
 	}
 }
